@@ -181,14 +181,16 @@ pub fn probes(nnames: usize) -> Vec<(String, Ex)> {
 }
 
 pub struct Prober {
-	imp: Imp,
+	pub imp: Imp,
 	uses: u32,
-	probe_asts: Vec<(String, Ex)>,
+	pub probe_asts: Vec<(String, Ex)>,
 	probe_fns: Vec<PreparedFuncVal>,
 }
 impl Prober {
 	pub fn new(nnames: usize) -> Self {
-		let probe_asts = probes(nnames);
+		Self::with_probes(probes(nnames))
+	}
+	pub fn with_probes(probe_asts: Vec<(String, Ex)>) -> Self {
 		let imp = Imp::new();
 		let probe_fns = Self::prepare(&imp, &probe_asts);
 		Self { imp, uses: 0, probe_asts, probe_fns }
